@@ -9,12 +9,12 @@ BOUND = ("x86-64 ELF module of 4 code blocks (target block kinds plain/jmp/ret/c
          "deletion with retarget_to_proxy, and pairs of compatible modifications (all pairs in thorough, a seed-chosen slice of 40 per shape in quick)")
 
 SPEC = {
-    "C01": dict(vals=[VAL.c01_bytes], clauses=["C01/bytes-are-the-listing-edit", "C01/section-contiguous"], space={}),
+    "C01": dict(vals=[VAL.c01_bytes], clauses=["C01/bytes-are-the-listing-edit", "C01/section-contiguous"], space=dict(gaps=(False, True))),
     "C02": dict(vals=[VAL.c02_labels], clauses=["C02/label-designates-the-same-listing-position", "C02/patch-label-designates-its-position-in-the-patch",
                                                  "C02/no-dangling-referent", "C02/retarget_to_proxy-makes-labels-external", "C02/label-survives"], space=dict(bare=(False, True))),
     "C03": dict(vals=[VAL.c03_cfg], clauses=["C03/falls-through-to-the-physically-next-block", "C03/no-fallthrough-after-ret-or-jmp",
                                               "C03/branch-edge-leads-to-its-target-label", "C03/no-control-transfer-buried-mid-block",
-                                              "C03/returns-lead-to-the-return-sites-of-the-callers", "C03/no-edge-to-a-removed-block"], space=dict(callee2=(False, True))),
+                                              "C03/returns-lead-to-the-return-sites-of-the-callers", "C03/no-edge-to-a-removed-block"], space=dict(callee2=(False, True), gaps=(False, True))),
     "C04": dict(vals=[VAL.c04_annotations], clauses=["C04/annotations-travel-with-their-byte", "C04/symbolic-expressions-travel-with-their-byte",
                                                       "C04/patch-expression-at-its-offset-with-module-symbol", "C04/no-annotation-on-removed-nodes",
                                                       "C04/nothing-points-outside-its-element", "C04/no-duplicate-symbols"],
@@ -28,7 +28,7 @@ SPEC = {
     "C08": dict(vals=[VAL.c08_cfi], clauses=["C08/directives-still-evaluate-cleanly", "C08/instruction-inside-a-procedure-iff-it-was",
                                               "C08/unwind-state-unchanged-when-nothing-is-deleted", "C08/procedure-structure-directives-never-dropped",
                                               "C08/inserted-code-covered-by-the-enclosing-procedure", "C08/patch-directives-take-effect-inside-a-procedure"],
-                space=dict(cfis=("whole", "b1only", "endatb1"), patches=["plain", "cfi", "two"])),
+                space=dict(cfis=("whole", "b1only", "endatb1", "b0b1", "b1b2"), patches=["plain", "cfi", "two"])),
 }
 
 
